@@ -142,6 +142,21 @@ Definition nat_tag (n : nat) : string :=
 
 Definition coll_hash : N := 7.
 
+(* hardening round 4: call histories in which two arguments are different views of ONE backing array
+   (the same label with different lengths: buf[:2] and buf[:3]) — they share memory and are not Equal.
+   Only a coverage tag: the model and the specification compare elements, never addresses of slices. *)
+Fixpoint sl_views (v : val) : list (N * nat) :=
+  match v with
+  | VSl l es _ => (l, List.length es) :: flat_map sl_views es
+  | VPtr _ x => sl_views x
+  | VArr es | VSt es => flat_map sl_views es
+  | VMap _ kvs => flat_map (fun kv => sl_views (snd kv)) kvs
+  | _ => []
+  end.
+Definition resliced (h : list (list val)) : bool :=
+  exists_pair (fun a b => (N.eqb (fst a) (fst b) && negb (Nat.eqb (snd a) (snd b)))%bool)
+              (flat_map (flat_map sl_views) h).
+
 Definition eval_hist (ps : list ty) (nres : nat) (fkind variant : string)
     (calls : list (list val)) (dms : list (outcome (list val) * outcome (list val)))
     (fcalls : list (nat * bool)) : verdict :=
@@ -173,6 +188,7 @@ Definition eval_hist (ps : list ty) (nres : nat) (fkind variant : string)
   let pan := existsb (fun d => match d with Panic => true | _ => false end) directs in
   let tag := "mem/" ++ form_tag ps ++ "/res" ++ nat_tag nres ++ "/" ++ fkind ++ "/" ++ variant
              ++ (if hit then "/hit" else "/nohit") ++ (if eqni then "/equal-not-identical" else "")
+             ++ (if resliced h then "/resliced-views" else "")
              ++ (if respects then "" else "/f-separates-equal-args") ++ (if pan then "/f-panics" else "") in
   match m with
   | Ok (st, outs) =>
